@@ -629,6 +629,21 @@ pub fn run_real(case: &Case, opts: &RunOpts) -> Trace {
       src_alive.lock().unwrap().push(srcs.iter().map(|s| s.alive()).collect());
       held.lock().unwrap().push(srcs.iter().zip(case.srcs.iter()).map(|(s, k)| s.held(k)).collect());
     }
+    // end what is still live (after every probe has been taken; anything delivered now carries a
+    // step number beyond the history and is not compared): a live subscription legitimately keeps
+    // its pipeline alive, and over 10^8 runs that memory adds up
+    rec.step.store(case.acts.len(), Ordering::Relaxed);
+    for s in subs.iter().flatten() {
+      if s.is_subscribed() {
+        s.unsubscribe();
+      }
+    }
+    let nested: Vec<Subscription<'static>> = rec.nested_subs.lock().unwrap().iter().map(|x| x.1.clone()).collect();
+    for s in nested {
+      if s.is_subscribed() {
+        s.unsubscribe();
+      }
+    }
     drop(subs);
     *rec.built.lock().unwrap() = None;
     rec.pushers.lock().unwrap().clear();
@@ -658,6 +673,16 @@ pub fn run_real(case: &Case, opts: &RunOpts) -> Trace {
   tr.tap_log = tap_log.lock().unwrap().clone();
   for s in &srcs {
     tr.err_addrs.extend(s.err_addrs.lock().unwrap().iter().cloned());
+  }
+  if !opts.check_tokens {
+    let inner: Vec<Subscription<'static>> = rec.inner_subs.lock().unwrap().drain(..).map(|x| x.1).collect();
+    set_monitor_mode(true);
+    let _ = catch_unwind(AssertUnwindSafe(|| {
+      for s in &inner {
+        s.unsubscribe();
+      }
+    }));
+    set_monitor_mode(false);
   }
   if opts.check_tokens && tr.panic.is_none() && tr.self_deadlock.is_none() && tr.livelock.is_none() {
     // drop everything the caller holds: sources (and the observers they were handed),
